@@ -1,8 +1,8 @@
 package sim
 
 import (
-	"sort"
 	"fmt"
+	"sort"
 	"strings"
 
 	"github.com/onheap/eval"
